@@ -53,12 +53,30 @@ def Sense(
 
     if coil_batch_size < len(mps):
         num_coil_batches = (num_coils + coil_batch_size - 1) // coil_batch_size
+        if coord is None:
+            ksp_ndim = img_ndim + 1
+        else:
+            ksp_ndim = coord.ndim
+
+        def batch_weights(c):
+            # Weights that carry a coil axis are split like the maps.
+            if (
+                weights is not None
+                and weights.ndim == ksp_ndim
+                and weights.shape[0] == num_coils
+            ):
+                return weights[
+                    c * coil_batch_size : ((c + 1) * coil_batch_size)
+                ]
+
+            return weights
+
         A = sp.linop.Vstack(
             [
                 Sense(
                     mps[c * coil_batch_size : ((c + 1) * coil_batch_size)],
                     coord=coord,
-                    weights=weights,
+                    weights=batch_weights(c),
                     ishape=ishape,
                 )
                 for c in range(num_coil_batches)
